@@ -297,6 +297,7 @@ func (m *Machine) makeSlice(t types.Type, ln, cp Int) Val {
 		m.rtOblige(sle(cp, CI(64, 1<<47)), "makeslice-len-out-of-range")
 	}
 	if isByte(et) {
+		m.noteAlloc(cp)
 		return Slice{B: newByteArr(cp), Off: CI(64, 0), Len: ln, Cap: cp}
 	}
 	if !cp.IsC() {
@@ -540,6 +541,7 @@ func (m *Machine) appendOp(args []Val, cc *ssa.CallCommon) Val {
 				// (size-class rounding can only add to it)
 				m.ex.Oblige(sle(CI(64, nc), *m.allocBudget), "alloc-not-backed-by-input (append) in "+m.curFn())
 			}
+			m.noteAlloc(CI(64, nc))
 			nb := newByteArr(CI(64, nc))
 			out = Slice{B: nb, Off: CI(64, 0), Len: CI(64, nl), Cap: CI(64, nc)}
 			if dst.B != nil && dl.C > 0 {
@@ -764,4 +766,24 @@ func (m *Machine) inCodeUnderTest() bool {
 		return m.underTest(o)
 	}
 	return false
+}
+
+// noteAlloc keeps the size of the largest single byte allocation (a term when sizes are symbolic).
+func (m *Machine) noteAlloc(n Int) {
+	if m.maxAlloc == nil {
+		m.maxAlloc = &n
+		return
+	}
+	cur := *m.maxAlloc
+	if cur.IsC() && n.IsC() {
+		if n.C > cur.C {
+			m.maxAlloc = &n
+		}
+		return
+	}
+	r := Int{W: 64, S: "(ite (bvsgt " + n.T() + " " + cur.T() + ") " + n.T() + " " + cur.T() + ")"}
+	if len(r.S) > 200 {
+		r = Int{W: 64, S: m.ex.Name("maxalloc", "(_ BitVec 64)", r.S)}
+	}
+	m.maxAlloc = &r
 }
